@@ -141,7 +141,7 @@ fn run_sequence(cx: &mut Ctx, mode: Mode, inline_opt: bool, ops: &[Op], label: &
 // ------------------------------------------------------------------ generators
 
 const CURATED_WILD: [&str; 22] = [
-    "x$y", "a$b", "b$c", "$", "a'$'b", "a'b'", "a''b", "''", "'", "a'b", "'/b'", "a/b", "/a", "./a", "../a", "a/..", "é", "éé", "aé", ".", "..", "",
+    "x$y", "a$b", "b$c", "$", "a'$'", "a'b'", "a''b", "''", "'", "a'b", "'/b'", "a/b", "/a", "./a", "../a", "a/..", "é", "éé", "aé", ".", "_", "",
 ];
 
 fn rand_name(rng: &mut Rng, alphabet: &[char], max_len: u64) -> String {
@@ -162,7 +162,7 @@ fn name_pool(rng: &mut Rng, wild: bool) -> Vec<String> {
             pool.push(rand_name(rng, &filt::ALPHABET, 4));
         }
     } else {
-        let alpha = ['a', 'b', '.', '-', '_'];
+        let alpha = ['a', 'b', '.', '-', '+'];
         pool.push("a".into());
         pool.push("b".into());
         pool.push(rand_name(rng, &alpha, 3));
@@ -247,6 +247,28 @@ fn rand_op(rng: &mut Rng, mode: Mode, pool: &[String], g: &mut GenState) -> Op {
             }
             _ => Op::DeregisterTable(id),
         }
+    };
+    // declared domain of the SQL-text model: an id that contains a quote has one component of <= 4 characters
+    let op = if op.id().iter().any(|n| n.contains('\'')) {
+        let q: String = op.id().iter().find(|n| n.contains('\'')).unwrap().chars().take(4).collect();
+        let nid = vec![q];
+        match op {
+            Op::CreateNs(_) => Op::CreateNs(nid),
+            Op::DropNs(_) => Op::DropNs(nid),
+            Op::DescribeNs(_) => Op::DescribeNs(nid),
+            Op::NsExists(_) => Op::NsExists(nid),
+            Op::ListNs(_, t, l) => Op::ListNs(nid, t, l),
+            Op::CreateEmptyTable(_) => Op::CreateEmptyTable(nid),
+            Op::CreateTable(_) => Op::CreateTable(nid),
+            Op::DropTable(_) => Op::DropTable(nid),
+            Op::TableExists(_) => Op::TableExists(nid),
+            Op::DescribeTable(_) => Op::DescribeTable(nid),
+            Op::ListTables(_, t, l) => Op::ListTables(nid, t, l),
+            Op::RegisterTable(_, loc) => Op::RegisterTable(nid, loc),
+            Op::DeregisterTable(_) => Op::DeregisterTable(nid),
+        }
+    } else {
+        op
     };
     // SAFETY of the machine: in dual mode a root table named "/..." gets the location file:///... outside
     // the sandbox (Url::join of an absolute path; part of finding path_unsafe_name).  Never write data there.
@@ -407,11 +429,11 @@ fn arm_register(cx: &mut Ctx, args: &Args, rng: &mut Rng) {
 
 /// one extra character c in otherwise plain names: every printable ASCII character
 fn arm_ascii(cx: &mut Ctx, args: &Args, rng: &mut Rng) {
-    let modelled = |c: char| safe_char(c) || c == '$' || c == '\'' || c == '/';
+    let modelled = |c: char| safe_char(c) || c == '$' || c == '\'' || c == '/' || c == '_';
     let mut chars: Vec<char> = (0x20u8..0x7f).map(|b| b as char).collect();
     if !args.thorough() {
         // quick tier: the delimiter, the quote, the slash and a rotating sample
-        let mut pick = vec!['$', '\'', '/', '.', '-'];
+        let mut pick = vec!['$', '\'', '/', '.', '-', '_'];
         for _ in 0..7 {
             pick.push(*rng.pick(&chars));
         }
@@ -505,10 +527,10 @@ fn arm_f10(cx: &mut Ctx) {
             vec![
                 Op::CreateNs(ids(&["a"])),
                 Op::CreateEmptyTable(ids(&["t"])),
-                Op::TableExists(ids(&["a'$'b"])),
+                Op::TableExists(ids(&["a'$'"])),
                 Op::NsExists(ids(&["t'b'"])),
                 Op::DescribeTable(ids(&["t'$'"])),
-                Op::DropTable(ids(&["a'$'b"])),
+                Op::DropTable(ids(&["a'$'"])),
                 Op::ListNs(vec![], None, None),
                 Op::TableExists(ids(&["t"])),
                 Op::CreateNs(ids(&["c"])),
@@ -530,6 +552,18 @@ fn arm_f10(cx: &mut Ctx) {
                 Op::CreateEmptyTable(ids(&["éé", "a", "b"])),
                 Op::ListTables(ids(&["éé"]), None, None),
                 Op::ListTables(ids(&["éé", "a"]), None, None),
+            ],
+            true,
+        ),
+        (
+            "`_` is a LIKE wildcard in the prefix filters",
+            Mode::Manifest,
+            vec![
+                Op::CreateNs(ids(&["_"])),
+                Op::CreateNs(ids(&["b"])),
+                Op::CreateEmptyTable(ids(&["b", "x"])),
+                Op::ListTables(ids(&["_"]), None, None),
+                Op::DropNs(ids(&["_"])),
             ],
             true,
         ),
